@@ -162,6 +162,7 @@ def install():
             g2 = g.copy()
             self.generic = g2
             self.exec_block(s.orelse, f)
+            env2 = dict(f.env)
         finally:
             self.pc.pop()
             self.generic = g
@@ -174,9 +175,17 @@ def install():
             v1 = w1[1] if w1[1] is not None else w2[1]
             v2 = w2[1] if w2[1] is not None else w1[1]
             g.writes[d] = (cond, z3.If(c.t, v1, v2))
-        # locals assigned in a branch are loop temporaries: keep the then-side binding where both exist
-        for k, v in env1.items():
-            f.env.setdefault(k, v)
+        # a local that the two sides bind differently has no single value after the merged `if`: poison it
+        f.env.clear()
+        f.env.update(env0)
+        for k in set(env1) | set(env2):
+            a, b = env1.get(k, _MISSING), env2.get(k, _MISSING)
+            if a is b:
+                f.env[k] = a
+            elif k in env0 and a is env0[k] and b is env0[k]:
+                f.env[k] = a
+            else:
+                f.env[k] = Poison(k)
     Interp.x_If = x_If
 
     # ------------------------------------------------------------------ loops over abstract collections
@@ -308,6 +317,15 @@ def install():
         return orig_chain(I, *its)
     _models.BUILTIN_MODELS[itertools.chain] = m_chain
 
+    orig_name = Interp.e_Name
+
+    def e_Name(self, e, f):
+        v = orig_name(self, e, f)
+        if isinstance(v, Poison):
+            raise Unsupported(f"local `{v.name}` is bound differently on the two sides of an `if` inside a generic iteration")
+        return v
+    Interp.e_Name = e_Name
+
     orig_iterate = Interp.iterate
 
     def iterate(self, v):
@@ -401,6 +419,16 @@ def install():
                 return ASet(lambda k, a=a, b=b: z3.And(a.mem(k), z3.Not(b.mem(k))))
         return orig_binop(self, op, a, b)
     Interp.binop = binop
+
+
+_MISSING = object()
+
+
+class Poison:
+    """a local variable bound differently on the two sides of a merged `if`"""
+
+    def __init__(self, name):
+        self.name = name
 
 
 def _no_fork():
